@@ -110,6 +110,7 @@ func timed(f func()) bool {
 // C07 owns all of them; C03 has its own restricted oracle (c03only).
 var faultViews = map[string][]string{
 	"C01": {"split-view-under-fault"},
+	"C04": {"handed-out-under-fault"},
 	"C06": {"false-success", "state-changed-on-error"},
 	"C09": {"fault-free-mismatch", "suffix-fork-not-refused", "suffix-growth-refused", "wrong-verdict-under-fault", "accepted-under-fault"},
 	"C16": {"read-wrong-bytes", "read-logs-wrong", "read-fault-reported-as-not-found", "suffix-read", "read-failed-without-fault"},
@@ -374,6 +375,22 @@ func faultExec(run *ev.Run, view string, u *uni.U, gen *wh.CPGen, logs []wh.LogC
 				}
 			}
 			accepted[id] = append(accepted[id], r.Meta)
+			// C04's oracle under faults: what an accepted Update hands out is
+			// the submitted text, log-signed, one valid line per witness key.
+			if text, sigs, ok := uni.SplitNote(out.Bytes); !ok || text != r.Meta.Text {
+				report(sig("handed-out-under-fault text"), desc("accepted, but the returned bytes are not a note over the submitted text"), replay(nil))
+			} else {
+				if cfgd, ok := e.LogByID[id]; ok {
+					if _, v := countValid(cfgd.Key.Verif, text, sigs); v < 1 {
+						report(sig("handed-out-under-fault log-signature"), desc("accepted, but the returned note lacks the log's valid signature"), replay(nil))
+					}
+				}
+				for _, wv := range e.WitVerifs {
+					if n, v := countValid(wv, text, sigs); n != 1 || v != 1 {
+						report(sig("handed-out-under-fault cosignature"), desc(fmt.Sprintf("accepted, but the returned note has %d lines / %d valid for witness key %s", n, v, wv.Name())), replay(nil))
+					}
+				}
+			}
 		}
 		if c03only {
 			if out.Err != nil && !afterEffect {
